@@ -701,6 +701,8 @@ def _make_popen(w):
             w.util.Finalize(self, simos.close, (parent_r,))
             s.popens.append((child.label, weakref.ref(self)))
             w.spawn_log.append(dict(label=child.label, pid=child.pid,
+                                    after_break=any(rawflag(h["flags"], "broken") is not None
+                                                    for h in w.execs),
                                     keep_fds=child.info["keep_fds"], env=child.env,
                                     parent_fds=sorted(parent.fds)))
             s.spawn(_child_main(w, data, child), "main", child, is_main=True)
